@@ -121,6 +121,7 @@ package fscache
 //@   assigns c.connTimeout, c.timeout, c.enc, c.base, c.updateMTime
 //@   ensures result == nil && isEncOption(o) ==> c.enc != nil
 //@   ensures result == nil && old(c.enc) != nil ==> c.enc != nil
+//@   ensures old(c.connTimeout) >= 0 ==> c.connTimeout >= 0
 //@ func WithEncryption
 //@   trusted
 //@   property C17
@@ -145,5 +146,5 @@ package fscache
 //@   nosafety
 //@   assigns *
 //@   ensures result1 == nil && result0 != nil && (exists j int :: 0 <= j && j < len(opts) && isEncOption(opts[j])) ==> result0.enc != nil     # name: requested-encryption-is-on-or-open-fails
-//@   loop 0 invariant -1 <= rangeindex && rangeindex < len(opts) && c != nil && fresh(c)
+//@   loop 0 invariant -1 <= rangeindex && rangeindex < len(opts) && c != nil && fresh(c) && c.connTimeout >= 0
 //@   loop 0 invariant forall j int :: 0 <= j && j <= rangeindex && isEncOption(opts[j]) ==> c.enc != nil
